@@ -4,6 +4,7 @@ import (
 	"bytes"
 	"fmt"
 	"runtime"
+	"strings"
 	"sync"
 	"testing"
 	"time"
@@ -318,10 +319,83 @@ func runCmsizeCase(c cmsizeCase) *fail {
 	return bad
 }
 
+// raiseCase: a second Tversion raises msize while the reply of an earlier Tread
+// is still being written (the handler has written the frame but not yet
+// finished with its buffer). Reads under the new, larger limit must be served
+// in full: "the data is shortened, not the limit broken" - and not refused.
+type raiseCase struct {
+	From  uint32 `json:"from"`
+	To    uint32 `json:"to"`
+	Reads int    `json:"reads"`
+}
+
+func runRaiseCase(c raiseCase) *fail {
+	fs := memfs.New(memfs.Options{NativeWalkGetAttr: true})
+	populateMsize(100000, 1, 8)(fs.Tree)
+	file, _ := fs.Tree.Resolve([]string{"big"})
+	s := peers.Start(p9.NewServer(fs))
+	defer s.Close(10 * time.Second)
+	if rv, err := s.Version(c.From, "9P2000.L.Google.7"); err != nil || rv.Type != refcodec.Rversion {
+		return failf("harness-version", "HARNESS-ERROR %v %v", rv, err)
+	}
+	for i, m := range []*refcodec.Msg{tAttach(0, nofid, ""), tWalk(0, 1, "big"), tOpen(1, 0)} {
+		if r, err := s.Call(withTag(m, uint16(1+i))); err != nil || r.Type == refcodec.Rlerror {
+			return failf("harness-setup", "HARNESS-ERROR %s: %v %v", m, r, err)
+		}
+	}
+	// an Rread with data goes out in three Writes (header, count, data): the
+	// handler is paused after the last one, before it is done with its buffer
+	entered, release := s.S2C.PauseAfterWriteAt(s.S2C.Writes() + 3)
+	defer release()
+	s.Send(refcodec.Encode(withTag(tRead(1, 0, 8), 10)))
+	select {
+	case <-entered:
+	case <-time.After(20 * time.Second):
+		return failf("harness-raise", "HARNESS-ERROR the read reply was not written in three Writes")
+	}
+	if _, err := s.Recv(20 * time.Second); err != nil {
+		return failf("harness-raise", "HARNESS-ERROR read reply: %v", err)
+	}
+	s.Send(refcodec.Encode(refcodec.New(refcodec.Tversion, refcodec.NOTAG, "msize", c.To, "version", "9P2000.L.Google.7")))
+	time.Sleep(3 * time.Millisecond) // the Tversion handler gets as far as its own reply, which waits for the paused Write
+	release()
+	raw, err := s.Recv(20 * time.Second)
+	if err != nil {
+		return failf("no-reply:Tversion", "second Tversion(msize %d): %v", c.To, err)
+	}
+	if rv, derr := refcodec.DecodeStrict(raw); derr != nil || rv.Type != refcodec.Rversion || rv.U("msize") != uint64(c.To) {
+		return failf("rversion-msize", "second Tversion(msize %d) answered %x", c.To, raw[:min(len(raw), 40)])
+	}
+	for i := 0; i < c.Reads; i++ {
+		count := uint64(c.To) - 11 - uint64(i)
+		raw, err := s.RPC(refcodec.Encode(withTag(tRead(1, uint64(i), count), uint16(20+i))))
+		if err != nil {
+			return failf("no-reply:Tread", "read %d after raising msize %d -> %d: %v", i, c.From, c.To, err)
+		}
+		if uint32(len(raw)) > c.To {
+			return failf("frame-exceeds-msize:Rread", "after raising msize %d -> %d: a %d-byte Rread", c.From, c.To, len(raw))
+		}
+		rep, derr := refcodec.DecodeStrict(raw)
+		if derr != nil {
+			return failf("reply-undecodable", "read %d after raising msize: %v", i, derr)
+		}
+		if rep.Type == refcodec.Rlerror {
+			return failf("read-refused:after-raising-msize", "msize raised %d -> %d by a second Tversion while the reply of an earlier read was still being written: Tread(offset=%d, count=%d) was answered %s; the data must be delivered (shortened at most to the limit), not refused", c.From, c.To, i, count, rep)
+		}
+		want := make([]byte, count)
+		wn := file.ReadAt(want, uint64(i))
+		if !bytes.Equal(rep.Bytes("data"), want[:wn]) {
+			return failf("read-data-wrong:after-raising-msize", "read %d after raising msize %d -> %d returned %d bytes, expected the %d bytes of the file", i, c.From, c.To, len(rep.Bytes("data")), wn)
+		}
+	}
+	return nil
+}
+
 func init() {
 	replayRegistrars = append(replayRegistrars, func() {
 		registerReplay("C13/server", func(c msizeCase) *fail { return runMsizeCase(c, nil) })
 		registerReplay("C13/client", runCmsizeCase)
+		registerReplay("C13/raise", runRaiseCase)
 	})
 }
 
@@ -339,6 +413,23 @@ func TestC13(t *testing.T) {
 		}
 		return f
 	})
+	// msize raised by a second Tversion while a read reply is still being written
+	if env.Shard == 0 {
+		for _, ft := range [][2]uint32{{64, 128}, {64, 4096}, {4096, 65536}, {128, 129}, {100, 1 << 20}} {
+			for rep := 0; rep < env.Pick(4, 40); rep++ {
+				c := raiseCase{From: ft[0], To: ft[1], Reads: 6}
+				f := runRaiseCase(c)
+				h.Case(evid.HashJSON(c)+uint64(rep), true, "raise-msize-during-read-reply")
+				if f != nil && strings.HasPrefix(f.Sig, "harness-") {
+					t.Errorf("HARNESS-ERROR %s", f.Msg)
+					continue
+				}
+				if h.report("raise", f, c) {
+					return
+				}
+			}
+		}
+	}
 	rapidCases(h, "client", env.PerShard(env.Pick(2400, 40000)), func(rt *rapid.T) cmsizeCase {
 		c := cmsizeCase{ClientMsize: rapid.SampledFrom([]uint32{4096, 65536, 1 << 20, 300}).Draw(rt, "cm")}
 		c.OfferMsize = uint32(rapid.IntRange(161, int(c.ClientMsize)).Draw(rt, "om"))
